@@ -358,8 +358,8 @@ func (s *Sim) loop() {
 				return
 			}
 		}
+		tm := time.NewTimer(d) // (outside the hidden region: library one-time initialisation must stay visible)
 		raceOff()
-		tm := time.NewTimer(d)
 		select {
 		case <-s.wake:
 			tm.Stop()
